@@ -716,7 +716,7 @@ func corpusC12() []*Bundle {
 func init() {
 	register(&Property{
 		ID: "C12", Plain: true, Level: "exploration",
-		Rule:   "cases = rapid-generated (document of 0-5 rows with nested arrays/objects/NULLs) x query drawn from a grammar over every expression form the engine evaluates (literals, tuples, arithmetic, comparison, AND/OR/NOT, IS, BETWEEN, IN/NOT IN, LIKE, SUBSTR, CASE, built-in functions incl. ARRAY/IF/FUSE/FIRST/LAST/ELEMENTAT/CHANGETYPE, row-scoped subqueries, EXISTS, `<-` back-references, ASYNC/ONCE stub calls directly in the select list and inside subqueries, aggregates) in 23 statement shapes (plain, WHERE, ORDER BY total/ties, LIMIT/OFFSET, DISTINCT, GROUP BY/HAVING, whole-table aggregates, joins incl. PARALLEL, derived tables, CTEs un-Wrapped and Wrapped, direct CTE selection, dual, UNION, slices, aliases, `*`) plus a fixed corpus; each query is executed under 4 different (map order, goroutine schedule, stub latency) configurations; every successful result is type-walked in the child and the 4 outcomes/results are compared (sequence when determined, else multiset); non-trivial = >=2 tasks runnable at some yield or a non-identity map order applied; distinct = distinct case-file hash; select items also include aliased FUSE (prefixed keys), REPORT/REPORT_WHEN (omit marker), CONSTANT over a caller-supplied constants map holding objects/arrays/NULL and SCOPED-qualified calls; AWAIT over nested selects, markers nested in other expressions, FUSE of rows with pending slots, derived tables on join sides, `*` over dual next to a CTE, reshape selectors over the scope, DEFAULTKEY, array-of-arrays sources, joins on nullable columns, and the shapes of the open known findings (LIMIT over a join, non-finite numbers, ASYNC calls as arguments)",
+		Rule:   "cases = rapid-generated (document of 0-5 rows with nested arrays/objects/NULLs) x query drawn from a grammar over every expression form the engine evaluates (literals, tuples, arithmetic, comparison, AND/OR/NOT, IS, BETWEEN, IN/NOT IN, LIKE, SUBSTR, CASE, built-in functions incl. ARRAY/IF/FUSE/FIRST/LAST/ELEMENTAT/CHANGETYPE, row-scoped subqueries, EXISTS, `<-` back-references, ASYNC/ONCE stub calls directly in the select list and inside subqueries, aggregates) in 23 statement shapes (plain, WHERE, ORDER BY total/ties, LIMIT/OFFSET, DISTINCT, GROUP BY/HAVING, whole-table aggregates, joins incl. PARALLEL, derived tables, CTEs un-Wrapped and Wrapped, direct CTE selection, dual, UNION, slices, aliases, `*`) plus a fixed corpus; each query is executed under 4 different (map order, goroutine schedule, stub latency) configurations; every successful result is type-walked in the child and the 4 outcomes/results are compared (sequence when determined, else multiset); non-trivial = >=2 tasks runnable at some yield or a non-identity map order applied; distinct = distinct case-file hash; select items also include aliased FUSE (prefixed keys), REPORT/REPORT_WHEN (omit marker), CONSTANT over a caller-supplied constants map holding objects/arrays/NULL and SCOPED-qualified calls; AWAIT over nested selects, markers nested in other expressions, FUSE of rows with pending slots, derived tables on join sides, `*` over dual next to a CTE, reshape selectors over the scope, DEFAULTKEY, array-of-arrays sources, joins on nullable columns, and the shapes of the open known findings (LIMIT over a join, non-finite numbers, ASYNC calls as arguments); IN over multi-column subqueries, mix=> over objects whose flattened keys collide, the enclosing document reached by a dozen routes other than the column `<-` (two steps, aliased or unaliased FROM `<-` with and without GROUP BY, whole-row selectors over dual, AWAIT over a nested * select in a row-scoped subquery, a reshape selector over a CTE as grouping key of a join with dual), FUSE over AWAIT",
 		Corpus: corpusC12, Gen: genC12, Eval: evalC12, QuickChecks: 500,
 		Assumptions: []string{
 			"'every expression form in every clause position' is an input-space quantifier: sampled by the grammar, not covered; the simulator decides the repeat-under-different-nondeterminism clause and the unresolved-async-slot clause",
